@@ -398,7 +398,8 @@ package expr
 //@     invariant plainIn && e.Permissive && fd != nil && pbKind(fd) == 11 && !pbIsList(fd) && i == 1 && pbValid(pbMsg(pbGet(pbReflect(m0), fd))) ==> len(output) == 1 && output[0] == pbIface(pbMsg(pbGet(pbReflect(m0), fd)))
 //@   loop 2:
 //@     invariant own(output)
-//@     invariant 0 <= i
+//@     invariant 0 <= i && i <= pbLen(content)
+//@     decreases pbLen(content) - i
 //@     invariant listNav ==> i <= pbLen(L)
 //@     invariant listNav ==> len(output) == i && (forall k int :: 0 <= k && k < i ==> output[k] == pbIface(pbMsg(pbAt(L, k))))
 // the string form of a typed reference (Type/id[/_history/v]), a uri or a fragment; nil when
